@@ -18,12 +18,12 @@ mod proofs {
         [ [(A,B),(A,B),(B,A),(B,A)], [(-B,C),(-A,D),(-A,D),(-B,C)] ],
         [ [(B,-C),(A,-D),(A,-D),(B,-C)], [(-A,-B),(-A,-B),(-B,-A),(-B,-A)] ],
     ];
-    fn body(n: usize) {
+    fn body(n: usize) { body_o(n, any_orientation()); }
+    fn body_o(n: usize, o: Orientation) {
         // warm lazy_static tables
         let _ = ij_to_s(IJ::new(0.25, 0.25), 1, Orientation::UV);
         let s: u64 = kani::any();
         kani::assume(s < (1u64 << (2 * n)));
-        let o = any_orientation();
         let a = s_to_anchor(s, n, o);
         let f0 = if a.flips[0] == NO { 0 } else { 1 };
         let f1 = if a.flips[1] == NO { 0 } else { 1 };
@@ -44,4 +44,6 @@ mod proofs {
     #[kani::proof] #[kani::unwind(10)] fn h_n4() { body(4); }
     #[kani::proof] #[kani::unwind(10)] fn h_n6() { body(6); }
     #[kani::proof] #[kani::unwind(10)] fn h_n8() { body(8); }
+    #[kani::proof] #[kani::unwind(10)] fn h_n8_uv() { body_o(8, Orientation::UV); }
+    #[kani::proof] #[kani::unwind(10)] fn h_n8_wu() { body_o(8, Orientation::WU); }
 }
